@@ -221,4 +221,77 @@ example : miller_rabin_with 1000003 [2, 3, 999999, 1000001] = true ∧ miller_ra
 theorem isPrime_complete (p : ℕ) (hp : p.Prime) : isPrime p = true := isPrime_of_prime p hp
 example : isPrime 18446744073709551557 = true ∧ isPrime 3825123056546413051 = false := by decide +kernel
 
+/-! ## Factorials -/
+
+/-- Legendre's formula for p = 2, the fact behind `mpz_mul_2exp (x, x, n - popcount n)` in fac_ui.c:
+    n! = (odd part of n!) · 2^(n - popcount n) for every n < 2^64. -/
+theorem factorial_odd_part_mul_two_pow (n : ℕ) (hn : n < B) :
+    n.factorial = oddPart n.factorial * 2 ^ (n - popcount n) := by
+  rw [mul_comm]; exact factorial_two_adic n hn
+example : Nat.factorial 10 = 14175 * 2 ^ (10 - popcount 10) ∧ oddPart (Nat.factorial 10) = 14175 := by decide +kernel
+
+/-- structure of mpz_fac_ui beyond the one-limb table: odd part × 2^(n − popcount n)
+    (the shift count comes from `__gmp_fac2cnt_table` up to TABLE_LIMIT_2N_MINUS_POPC_2N and from popc_limb above). -/
+theorem fac_ui_structure (n : ℕ) (h1 : facTable.length ≤ n) (h2 : aboveThreshold n FAC_ODD_THRESHOLD = true) :
+    mpz_fac_ui n = mpz_oddfac_1 n 0 * 2 ^ (n - popcount n) := by
+  have hlen := facTable_length_pos
+  unfold mpz_fac_ui
+  simp only [show ¬ n < facTable.length by omega, h2, if_false, Bool.not_true, Bool.false_eq_true]
+  rw [facShift_eq n (by omega)]
+example : mpz_fac_ui 100 = mpz_oddfac_1 100 0 * 2 ^ (100 - popcount 100) ∧ 100 - popcount 100 = 97 :=
+  ⟨fac_ui_structure 100 (by decide +kernel) (by decide +kernel), by decide +kernel⟩
+
+/-- mpz_oddfac_1 below FAC_DSC_THRESHOLD (tables; limb-product basecase with FACTOR_LIST_STORE, proved
+    never to overflow a limb): the odd part of n!, for every such n and either flag. -/
+theorem oddfac_1_spec_below_dsc (n flag : ℕ) (hn : n < B) (h : n < FAC_DSC_THRESHOLD) :
+    mpz_oddfac_1 n flag = oddPart n.factorial := by
+  apply mpz_oddfac_1_below_dsc n flag hn
+  have := (aboveThreshold_dsc n).not.2 (by omega)
+  simpa using this
+example : mpz_oddfac_1 200 0 = oddPart (Nat.factorial 200) := oddfac_1_spec_below_dsc 200 0 (by decide +kernel) (by decide +kernel)
+
+/-- mpz_fac_ui n = n! for every n below FAC_DSC_THRESHOLD (table, limb-product basecase, odd factorial
+    basecase × power of two). -/
+theorem fac_ui_spec_below_dsc (n : ℕ) (hn : n < B) (h : n < FAC_DSC_THRESHOLD) : mpz_fac_ui n = n.factorial :=
+  mpz_fac_ui_eq n hn (fun _ _ => oddfac_1_spec_below_dsc n 0 hn h)
+example : mpz_fac_ui 25 = 15511210043330985984000000 := by decide +kernel
+
+/- FULL STATEMENT (not proved): `∀ n < 2^64, mpz_fac_ui n = n !`.
+   Proved for every n up to the hypothesis `hsw`: the sieve-based swing factor `mpz_2multiswing_1 m`
+   (oddfac_1.c:199-262: prime powers read off a prime sieve) is the odd part of m!/((m/2)!)^2 for the
+   arguments m ≥ FAC_DSC_THRESHOLD that the divide-swing-conquer loop uses.  That is Legendre-style
+   prime-power counting over the sieve and is NOT proved here; it is covered by the correspondence run
+   (model = implementation = n! for n up to 3000, around 2^j·FAC_DSC_THRESHOLD and sampled beyond).
+   Everything else — dispatch, tables, basecase products without limb overflow, the number of halvings,
+   the squaring loop, the power of two — is proved. -/
+/-- mpz_fac_ui n = n! for every n < 2^64, given correct swing factors -/
+theorem fac_ui_spec_partial (n : ℕ) (hn : n < B)
+    (hsw : ∀ m, FAC_DSC_THRESHOLD ≤ m → m ≤ n →
+      mpz_2multiswing_1 m * oddPart (m / 2).factorial ^ 2 = oddPart m.factorial) :
+    mpz_fac_ui n = n.factorial :=
+  mpz_fac_ui_eq n hn (fun _ _ => mpz_oddfac_1_of_swing n hn hsw)
+example : mpz_2multiswing_1 900 * oddPart (Nat.factorial 450) ^ 2 = oddPart (Nat.factorial 900) := by decide +kernel
+
+open Nat in
+/-- mpz_2fac_ui n = n!! for every n below 2·FAC_DSC_THRESHOLD (even: odd factorial of n/2 × power of two;
+    odd: table or limb-product basecase). -/
+theorem two_fac_ui_spec_below_dsc (n : ℕ) (hn : n < B) (h : n < 2 * FAC_DSC_THRESHOLD) : mpz_2fac_ui n = n‼ := by
+  rcases Nat.even_or_odd' n with ⟨k, rfl | rfl⟩
+  · exact two_fac_even k hn (oddfac_1_spec_below_dsc k 0 (by omega) (by omega))
+  · exact two_fac_odd (2 * k + 1) hn (by omega) (fun h2 => by have := FAC_2DSC_ge; omega)
+example : mpz_2fac_ui 51 = 2980227913743310874726229193921875 ∧ mpz_2fac_ui 12 = 46080 := by decide +kernel
+
+open Nat in
+/- FULL STATEMENT (not proved): `∀ n < 2^64, mpz_2fac_ui n = n‼`; same gap as `fac_ui_spec_partial`. -/
+/-- mpz_2fac_ui n = n!! for every n < 2^64, given correct swing factors (the odd case above
+    FAC_2DSC_THRESHOLD is mpz_oddfac_1 with flag 1: the last square is skipped) -/
+theorem two_fac_ui_spec_partial (n : ℕ) (hn : n < B)
+    (hsw : ∀ m, FAC_DSC_THRESHOLD ≤ m → m ≤ n →
+      mpz_2multiswing_1 m * oddPart (m / 2).factorial ^ 2 = oddPart m.factorial) :
+    mpz_2fac_ui n = n‼ := by
+  rcases Nat.even_or_odd' n with ⟨k, rfl | rfl⟩
+  · exact two_fac_even k hn (mpz_oddfac_1_of_swing k (by omega) (fun m h1 h2 => hsw m h1 (by omega)))
+  · exact two_fac_odd (2 * k + 1) hn (by omega) (fun _ => hsw)
+example : mpz_2fac_ui 1801 = doubleFactorial 1801 := by decide +kernel
+
 end Mpir.Numth
